@@ -213,6 +213,25 @@ func create(op Op) (*handle, string) {
 			return nil, false
 		}, declared...)
 		h.m = fac.Create(value.Int(0))
+	case "funcMapShared":
+		// ONE factory for all maps of this kind: which of the declared keys are available
+		// depends on the value the map is created for (a bit mask)
+		mask := 0
+		for _, k := range op.Keys {
+			for i, d := range sharedKeys {
+				if d == k {
+					mask |= 1 << i
+				}
+			}
+		}
+		mask |= (op.N & 3) << len(pool) // the two optional extra keys
+		h.model = map[string]ref.Value{}
+		for i, d := range sharedKeys {
+			if mask>>i&1 == 1 {
+				h.model[d] = ref.Int(mask*100 + i)
+			}
+		}
+		h.m = sharedFactory.Create(value.Int(mask))
 	case "binDescr":
 		// the description map of a bin: outer bins have one bound only
 		n := 2
@@ -238,7 +257,18 @@ func create(op Op) (*handle, string) {
 	return h, ""
 }
 
-var creators = []string{"literal", "listMap", "realMap", "toMap", "reflection", "funcMap", "binDescr"}
+var creators = []string{"literal", "listMap", "realMap", "toMap", "reflection", "funcMap", "funcMapShared", "funcMapShared", "binDescr"}
+
+var sharedKeys = append(append([]string{}, pool...), "opt0", "opt1")
+
+var sharedFactory = value.NewFuncMapFactory[value.Int](func(mask value.Int, key string) (value.Value, bool) {
+	for i, d := range sharedKeys {
+		if d == key && int(mask)>>i&1 == 1 {
+			return value.Int(int(mask)*100 + i), true
+		}
+	}
+	return nil, false
+}, sharedKeys...)
 
 func copyModel(m map[string]ref.Value) map[string]ref.Value {
 	c := map[string]ref.Value{}
